@@ -22,6 +22,7 @@ Statements
 ["msg", n]              send_msg('/m', rid, n) to the target address
 ["bundle", lat, els]    send_bundle(lat, *els)   els: nested lists, see mk_el
 ["tempo", c, v]         clocks[c].tempo = v
+["etempo", c, v]        clocks[c].etempo(v): tempo change at the elapsed (physical) time
 ["beats", c, dv]        clocks[c].beats = clocks[c].beats + dv
 ["bpb", c, v]           clocks[c].beats_per_bar = v   (own clock only)
 ["draw", kind]          record a builtin random draw
@@ -152,6 +153,8 @@ def _gen_stmt(tp, feat, r, routines, n_clocks):
             return ['beats', c, tp.choice([-1, -0.5, 0.5, 1, 2])]
         if routines[r]['clock'] == f't{c}' or tp.draw(4) == 0:
             return ['bpb', c, tp.choice([2, 3, 4, 5, 7])]
+        if feat.get('etempo') and tp.draw(2) == 0:
+            return ['etempo', c, tp.choice(TEMPOS)]   # at the elapsed time
         return ['tempo', c, tp.choice(TEMPOS)]
     if feat.get('grid') and x < 19 and n_clocks:
         q = tp.choice([0, 1, 2, 4, 0.5, 3, 1.5, 1, 2, -1])
@@ -439,6 +442,18 @@ class Interp:
             self.event('tempo', rid, st[1], st[2],
                        {'b0': b0, 's0': s0, 'b1': b1, 's1': c.beats2secs(b1),
                         'tempo': c.tempo, 'beat_dur': c.beat_dur})
+        elif op == 'etempo':
+            c = self.clocks[f't{st[1]}']
+            tempo0 = c._tempo
+            t0 = main.elapsed_time()
+            eb0 = c.elapsed_beats()
+            c.etempo(st[2])
+            eb1 = c.elapsed_beats()
+            t1 = main.elapsed_time()
+            self.event('etempo', rid, st[1], st[2],
+                       {'t0': t0, 't1': t1, 'eb0': eb0, 'eb1': eb1,
+                        'tempo0': tempo0, 'tempo': c.tempo,
+                        'beat_dur': c.beat_dur})
         elif op == 'beats':
             c = self.clocks[f't{st[1]}']
             b0, s0 = c.beats, c.seconds
